@@ -123,3 +123,9 @@ def run(rep):
         chains = [n for n in tab.find(fn_["body"], "MethodCall") if n.get("method") == "map" and any(x.get("member") == "variants" for x in tab.find(n["recv"], "Field"))]
         bad = [n for c in chains for n in tab.find(c["recv"], "MethodCall") if n.get("method") in ("filter", "skip", "take", "rev", "filter_map", "step_by")]
         rep.ob("R4-derived-enum-every-variant", fn_["name"], bool(chains) and not bad, GEN, fn_.get("l", 0), "every variant must get an arm (variants.iter().map(..) without filter/skip)")
+    # ---- R5: the raw-copy shortcut is taken only for types whose memory image is their canonical encoding -----------------
+    # (shared with C10: a wrong classification makes encode() emit padded memory bytes instead of the canonical encoding)
+    import C10
+    from lib.common import Prefixed
+    C10.run(Prefixed(rep, "R5-trivial-shortcut/"))
+
